@@ -178,6 +178,14 @@ func deliveryOracle(run *Run) []string {
 		if cDrained && len(cRecv) != hSendOK {
 			probs = append(probs, fmt.Sprintf("call succeeded; client drained the stream and holds %d messages, handler completed %d sends", len(cRecv), hSendOK))
 		}
+		if (run.S.Kind == Unary || run.S.Kind == ServerStream) && len(cSent) > 1 {
+			hDrained = false // a raw client sent more than the single request such a method takes
+			for _, e := range evs {
+				if e.Who == "h" && e.Op == "recv" && !e.Call && e.Err == io.EOF {
+					hDrained = true
+				}
+			}
+		}
 		if hDrained && len(hRecv) != cSendOK {
 			probs = append(probs, fmt.Sprintf("call succeeded; handler drained the stream and holds %d messages, client completed %d sends", len(hRecv), cSendOK))
 		}
